@@ -474,6 +474,86 @@ class IfaceExecutor(X.UnitsExecutor):
                     return [(st, self.lift_const(consts[attr], f"{base.sort}.{attr}"))]
         return super().get_attr(st, base, attr, node)
 
+    # ------------------------------------------------ displays and calls --
+    def e_List(self, n, st):
+        """[*xs] / [a, *xs, b] with a symbolic sequence: concatenation of the parts."""
+        if any(isinstance(e, ast.Starred) for e in n.elts):
+            out = []
+            for (s, parts) in self._ev_parts(n.elts, st):
+                acc = None
+                for kind, v in parts:
+                    view = (z3.IntVal(1), (lambda k, v=v: v)) if kind == "one" else self._list_view(s, v)
+                    if view is None:
+                        raise Unsupported(f"{self.loc(n)} starred of {v!r}")
+                    if acc is None:
+                        acc = view
+                    else:
+                        (na, ea), (nb, eb) = acc, view
+                        acc = (z3.simplify(na + nb), (lambda k, na=na, ea=ea, eb=eb: X._ite_val(k < na, ea(k), eb(k - na))))
+                if acc is None:
+                    out.append((s, self.new_list(s, [])))
+                else:
+                    out.append((s, self.new_alist(s, VSeq(acc[0], acc[1], "unk"))))
+            return out
+        return super().e_List(n, st)
+
+    def _ev_parts(self, nodes, st):
+        acc = [(st, [])]
+        for n in nodes:
+            nxt = []
+            for (s, parts) in acc:
+                if isinstance(n, ast.Starred):
+                    for (s2, v) in self.ev(n.value, s):
+                        nxt.append((s2, parts + [("many", v)]))
+                else:
+                    for (s2, v) in self.ev(n, s):
+                        nxt.append((s2, parts + [("one", v)]))
+            acc = nxt
+        return acc
+
+    def e_Call(self, n, st):
+        """f(..., **d) where d is a dict display / dict(...) with constant keys: rewritten to explicit keywords."""
+        if any(k.arg is None for k in n.keywords) and not self.is_logger_call(n):
+            kws = []
+            for k in n.keywords:
+                if k.arg is not None:
+                    kws.append(k)
+                    continue
+                lit = k.value
+                if isinstance(lit, ast.Name):
+                    fnode = self.cur_fn_stack[-1] if self.cur_fn_stack else None
+                    binds = [x for x in ast.walk(fnode) if isinstance(x, ast.Assign) and len(x.targets) == 1 and isinstance(x.targets[0], ast.Name)
+                             and x.targets[0].id == lit.id] if fnode is not None else []
+                    touched = [x for x in ast.walk(fnode) if (isinstance(x, ast.Subscript) and isinstance(x.value, ast.Name) and x.value.id == lit.id
+                                                               and isinstance(x.ctx, (ast.Store, ast.Del)))
+                               or (isinstance(x, ast.Call) and isinstance(x.func, ast.Attribute) and isinstance(x.func.value, ast.Name) and x.func.value.id == lit.id
+                                   and x.func.attr in ("update", "setdefault", "pop", "clear", "popitem"))] if fnode is not None else [1]
+                    lit = binds[0].value if len(binds) == 1 and not touched else None
+                if isinstance(lit, ast.Dict) and all(isinstance(x, ast.Constant) and isinstance(x.value, str) for x in lit.keys):
+                    kws.extend(ast.keyword(arg=x.value, value=v) for x, v in zip(lit.keys, lit.values))
+                elif isinstance(lit, ast.Call) and isinstance(lit.func, ast.Name) and lit.func.id == "dict" and not lit.args and all(x.arg for x in lit.keywords):
+                    kws.extend(lit.keywords)
+                else:
+                    raise Unsupported(f"{self.loc(n)} **kwargs call")
+            n2 = ast.Call(func=n.func, args=n.args, keywords=kws)
+            ast.copy_location(n2, n)
+            return super().e_Call(n2, st)
+        return super().e_Call(n, st)
+
+    def b_map(self, st, args, kwargs, node):
+        """map(len, xs) over a symbolic sequence of rows."""
+        if len(args) == 2 and isinstance(args[0], VFunc) and args[0].how == "builtin" and args[0].a == "len":
+            view = self._list_view(st, args[1])
+            if view is not None and self.concrete_items(st, args[1]) is None:
+                n_, el = view
+                sample = el(K)
+                if isinstance(sample, VSeq) or (isinstance(sample, VExt) and sample.sort == "Bytes") or isinstance(sample, VStr):
+                    def ln(k, el=el):
+                        v = el(k)
+                        return VInt(v.length) if isinstance(v, VSeq) else (VInt(BLEN(v.t)) if isinstance(v, VExt) else VInt(z3.Length(v.t)))
+                    return [(st, VSeq(n_, ln, "int"))]
+        return self.havoc_call(st, "map", args, node)
+
     # ---------------------------------------------------------------- bytes --
     def truth(self, st, v):
         if isinstance(v, VExt) and v.sort == "Bytes":
